@@ -1098,3 +1098,255 @@ func ruleR207(c *Ctx) {
 		c.Undecided("value.binning#published-sums", token.NoPos, "only %d places where an accumulated sum becomes a value found", n)
 	}
 }
+
+// ---------------------------------------------------------------------------
+// R20.8: the grid and the observations reach the accumulator as given.
+//
+// The property speaks about the grid the caller gave (start, size, count) and
+// the weights the caller's functions returned. Between the stack and the
+// accumulator there are only the float readers of package value
+// ((float64, error) functions such as ToFloat and MustFloat). A reader that
+// "cleans" the number (rounds it to 15 digits, snaps it to a raster) makes
+// binning use another grid than the one described, and elements on a bin edge
+// land in the neighbouring bin. Decided here:
+//   (a) every float handed to a package function from a binning builtin (a
+//       function of binning.go that takes the stack) is a variable assigned
+//       once, by a float reader, or a plain conversion of such a variable;
+//   (b) every successful return of such a reader returns the float that the
+//       value's own ToFloat method (or a plain conversion) produced, assigned
+//       once, no arithmetic and no further call on the way.
+
+func ruleR208(c *Ctx) {
+	vp := c.Pkg("value")
+	if vp == nil {
+		c.Undecided("package value", token.NoPos, "not found")
+		return
+	}
+	info := vp.TypesInfo
+	isFloat64 := func(t types.Type) bool {
+		if t == nil {
+			return false
+		}
+		b, ok := t.Underlying().(*types.Basic)
+		return ok && b.Kind() == types.Float64
+	}
+	isErr := func(t types.Type) bool { return t != nil && t.String() == "error" }
+	isReader := func(fn *types.Func) bool {
+		if fn == nil || fn.Pkg() != vp.Types {
+			return false
+		}
+		sig, ok := fn.Type().(*types.Signature)
+		if !ok || sig.Results().Len() != 2 {
+			return false
+		}
+		return isFloat64(sig.Results().At(0).Type()) && isErr(sig.Results().At(1).Type())
+	}
+	// the single defining right hand side of a local variable, nil if it is assigned more than once
+	singleDef := func(fd *ast.FuncDecl, obj types.Object) (rhs ast.Expr, idx int, ok bool) {
+		if countAssignments(info, fd, obj) != 1 {
+			return nil, 0, false
+		}
+		ast.Inspect(fd, func(x ast.Node) bool {
+			as, isAs := x.(*ast.AssignStmt)
+			if !isAs {
+				return true
+			}
+			for i, l := range as.Lhs {
+				if id, isID := l.(*ast.Ident); isID && info.ObjectOf(id) == obj {
+					if len(as.Rhs) == 1 {
+						rhs, idx, ok = as.Rhs[0], i, true
+					} else if len(as.Rhs) == len(as.Lhs) {
+						rhs, idx, ok = as.Rhs[i], 0, true
+					}
+				}
+			}
+			return true
+		})
+		return
+	}
+	isConv := func(x ast.Expr) (ast.Expr, bool) {
+		call, ok := ast.Unparen(x).(*ast.CallExpr)
+		if !ok || len(call.Args) != 1 {
+			return nil, false
+		}
+		if tv, ok := info.Types[call.Fun]; ok && tv.IsType() {
+			return call.Args[0], true
+		}
+		return nil, false
+	}
+
+	readers := map[*types.Func]bool{}
+	nArgs := 0
+	for _, f := range vp.Syntax {
+		if name := c.Fset.Position(f.Pos()).Filename; !strings.HasSuffix(name, "binning.go") {
+			continue
+		}
+		for _, d := range f.Decls {
+			fd, ok := d.(*ast.FuncDecl)
+			if !ok || fd.Body == nil {
+				continue
+			}
+			takesStack := false
+			for _, p := range fd.Type.Params.List {
+				if t := info.TypeOf(p.Type); t != nil && strings.Contains(t.String(), "funcGen.Stack[") {
+					takesStack = true
+				}
+			}
+			if !takesStack {
+				continue
+			}
+			fname := declName(vp, fd)
+			ast.Inspect(fd.Body, func(x ast.Node) bool {
+				call, ok := x.(*ast.CallExpr)
+				if !ok {
+					return true
+				}
+				cal := Callee(info, call)
+				if cal == nil || cal.Pkg() != vp.Types || isReader(cal) {
+					return true
+				}
+				sig, _ := cal.Type().(*types.Signature)
+				if sig == nil || sig.Variadic() {
+					return true
+				}
+				for i, a := range call.Args {
+					if i >= sig.Params().Len() {
+						break
+					}
+					pt := sig.Params().At(i).Type()
+					bt, isB := pt.Underlying().(*types.Basic)
+					if !isB || bt.Info()&types.IsNumeric == 0 {
+						continue
+					}
+					e := ast.Unparen(a)
+					if inner, ok := isConv(e); ok {
+						e = ast.Unparen(inner)
+					}
+					if !isFloat64(info.TypeOf(e)) {
+						continue
+					}
+					nArgs++
+					key := fmt.Sprintf("%s#grid-arg:%s.%s", fname, cal.Name(), sig.Params().At(i).Name())
+					id, isID := e.(*ast.Ident)
+					if !isID {
+						c.Violation(key, a.Pos(), "the float handed to %s as %s is computed here (%s) and not the number read from the stack: binning then uses another grid or weight than the one given", cal.Name(), sig.Params().At(i).Name(), nodeStr(c.Fset, a))
+						continue
+					}
+					rhs, idx, ok := singleDef(fd, info.ObjectOf(id))
+					if !ok {
+						c.Violation(key, a.Pos(), "%s is assigned more than once (or never) in %s before it is handed to %s: the number used is not the one read from the stack", id.Name, fname, cal.Name())
+						continue
+					}
+					rc, isCall := ast.Unparen(rhs).(*ast.CallExpr)
+					if !isCall || idx != 0 || !isReader(Callee(info, rc)) {
+						c.Violation(key, rhs.Pos(), "%s, handed to %s as %s, is not the plain result of a float reader of package value (%s)", id.Name, cal.Name(), sig.Params().At(i).Name(), nodeStr(c.Fset, rhs))
+						continue
+					}
+					readers[Callee(info, rc)] = true
+					c.OK(key, a.Pos(), "read from the stack by "+Callee(info, rc).Name()+" and handed on unchanged")
+				}
+				return true
+			})
+		}
+	}
+	if nArgs < 10 {
+		c.Undecided("value.binning#grid-args", token.NoPos, "only %d float arguments from binning builtins to package functions found", nArgs)
+	}
+
+	var rl []*types.Func
+	for r := range readers {
+		rl = append(rl, r)
+	}
+	sort.Slice(rl, func(i, j int) bool { return rl[i].Name() < rl[j].Name() })
+	nRet := 0
+	for _, r := range rl {
+		fd := findFuncDecl(vp, r)
+		if fd == nil || fd.Body == nil {
+			c.Undecided("value."+r.Name()+"#reader", token.NoPos, "declaration not found")
+			continue
+		}
+		k := 0
+		ast.Inspect(fd.Body, func(x ast.Node) bool {
+			if _, isLit := x.(*ast.FuncLit); isLit {
+				return false
+			}
+			ret, ok := x.(*ast.ReturnStmt)
+			if !ok {
+				return true
+			}
+			if len(ret.Results) != 2 {
+				c.Undecided(fmt.Sprintf("value.%s#reader-return", r.Name()), ret.Pos(), "return without two explicit results")
+				return true
+			}
+			if id, ok := ast.Unparen(ret.Results[1]).(*ast.Ident); !ok || id.Name != "nil" {
+				return true // an error return
+			}
+			nRet++
+			k++
+			key := fmt.Sprintf("value.%s#reader-return[%d]", r.Name(), k)
+			e := ast.Unparen(ret.Results[0])
+			if inner, ok := isConv(e); ok {
+				e = ast.Unparen(inner)
+			}
+			switch t := e.(type) {
+			case *ast.TypeAssertExpr:
+				c.OK(key, ret.Pos(), "returns the value itself, converted")
+				return true
+			case *ast.Ident:
+				obj := info.ObjectOf(t)
+				if v, isVar := obj.(*types.Var); isVar && !v.IsField() {
+					isParam := false
+					for _, p := range fd.Type.Params.List {
+						for _, n := range p.Names {
+							if info.ObjectOf(n) == obj {
+								isParam = true
+							}
+						}
+					}
+					if isParam && countAssignments(info, fd, obj) == 0 {
+						c.OK(key, ret.Pos(), "returns its parameter, converted")
+						return true
+					}
+				}
+				rhs, idx, ok := singleDef(fd, obj)
+				if !ok {
+					c.Violation(key, ret.Pos(), "%s returns %s, which is assigned more than once (or never): the float returned is not the one the value gave", r.Name(), t.Name)
+					return true
+				}
+				src := ast.Unparen(rhs)
+				if inner, ok := isConv(src); ok {
+					src = ast.Unparen(inner)
+				}
+				switch s := src.(type) {
+				case *ast.TypeAssertExpr:
+					c.OK(key, ret.Pos(), "returns the value itself, converted")
+					return true
+				case *ast.Ident:
+					c.OK(key, ret.Pos(), "returns a converted variable")
+					return true
+				case *ast.CallExpr:
+					cal := Callee(info, s)
+					if cal != nil && idx == 0 && cal.Name() == "ToFloat" && cal.Type().(*types.Signature).Recv() != nil && cal.Type().(*types.Signature).Params().Len() == 0 {
+						c.OK(key, ret.Pos(), "returns the result of the value's ToFloat method unchanged")
+						return true
+					}
+					if isReader(cal) && idx == 0 {
+						if !readers[cal] {
+							c.Undecided(key, ret.Pos(), "delegates to the reader %s which is not analysed", cal.Name())
+						} else {
+							c.OK(key, ret.Pos(), "delegates to the reader "+cal.Name())
+						}
+						return true
+					}
+				}
+				c.Violation(key, rhs.Pos(), "%s returns %s = %s: not the float the value's ToFloat method gave but a recomputed one (cleaned, rounded, parsed back); binning then uses another grid than the one given and elements at a bin edge change bins", r.Name(), t.Name, nodeStr(c.Fset, rhs))
+			default:
+				c.Violation(key, ret.Pos(), "%s returns %s: not the float the value's ToFloat method gave but a computed one", r.Name(), nodeStr(c.Fset, ret.Results[0]))
+			}
+			return true
+		})
+	}
+	if len(rl) < 2 || nRet < 2 {
+		c.Undecided("value.binning#readers", token.NoPos, "only %d float readers with %d successful returns found", len(rl), nRet)
+	}
+}
